@@ -36,10 +36,13 @@ CONFIGS = {
 }
 
 
+HOOKS_OFF = False  # set when the hook code itself no longer compiles against /repo's working tree
+
+
 def cargo_env(extra_rustflags=""):
     env = dict(os.environ)
     env["CARGO_NET_OFFLINE"] = "true"
-    env["RUSTFLAGS"] = ("-Awarnings " + GUARD + " " + extra_rustflags).strip()
+    env["RUSTFLAGS"] = ("-Awarnings " + ("" if HOOKS_OFF else GUARD) + " " + extra_rustflags).strip()
     env.pop("CARGO_TARGET_DIR", None)
     return env
 
@@ -52,43 +55,64 @@ _built = set()
 NO_INTERNALS = set()
 
 
-def build(config, package="vh"):
-    """(Re)build one configuration from /repo's current working tree; returns the binary path."""
+def _cargo_build(config, package, internals):
     c = CONFIGS[config]
-    tdir = os.path.join(BUILD, c["target"])
+    tdir = os.path.join(BUILD, c["target"] + ("-nohooks" if HOOKS_OFF else ""))
     binp = os.path.join(tdir, profile_dir(c["profile"]), package)
-    key = (config, package)
-    if key in _built:
-        return binp
     cmd = ["cargo", "build", "--offline", "-q", "-p", package, "--target-dir", tdir]
     if c["profile"] == "release":
         cmd.append("--release")
     elif c["profile"] != "dev":
         cmd += ["--profile", c["profile"]]
-    if c["features"]:
-        cmd += ["--features", ",".join(c["features"])]
-    t0 = time.time()
+    feats = list(c["features"])
+    if not internals:
+        cmd.append("--no-default-features")
+    if feats:
+        cmd += ["--features", ",".join(feats)]
     p = subprocess.run(cmd, cwd=HARNESS, env=cargo_env(c["rustflags"]), stdout=subprocess.PIPE, stderr=subprocess.STDOUT, text=True)
-    if p.returncode != 0 and package == "vh":
-        # The explicit-state explorer of C02/C11 reads the public state fields of the cipher objects. If a
-        # refactoring removed or renamed them, everything else must still run: retry without `internals`.
-        cmd2 = [x for x in cmd]
-        if "--features" in cmd2:
-            i = cmd2.index("--features")
-            del cmd2[i:i + 2]
-        cmd2 += ["--no-default-features"]
-        if c["features"]:
-            cmd2 += ["--features", ",".join(c["features"])]
-        p2 = subprocess.run(cmd2, cwd=HARNESS, env=cargo_env(c["rustflags"]), stdout=subprocess.PIPE, stderr=subprocess.STDOUT, text=True)
-        if p2.returncode == 0:
-            log("[build] %s builds only WITHOUT cipher internals (public state fields of the ChaCha ciphers changed): C02/C11 cannot run" % config)
+    return p.returncode == 0, binp, p.stdout
+
+
+_binpath = {}
+
+
+def build(config, package="vh"):
+    """(Re)build one configuration from /repo's current working tree; returns the binary path.
+
+    Degrades instead of failing when a change to the repository breaks only what the harness hooks into:
+    1. without the harness feature `internals` (public state fields of the ChaCha ciphers changed);
+    2. without the hooks (`--cfg cryptocorrosion_verif` off everywhere: the guarded hook code in /repo no
+       longer compiles) - forced back ends (H1) and counter fast-forwarding (H2) are then unavailable.
+    """
+    global HOOKS_OFF
+    key = (config, package)
+    if key in _built:
+        return _binpath[key]
+    t0 = time.time()
+    ok, binp, out = _cargo_build(config, package, True)
+    if not ok and package == "vh":
+        ok2, binp2, _ = _cargo_build(config, package, False)
+        if ok2:
+            log("[build] %s builds only WITHOUT cipher internals (public state fields of the ChaCha ciphers changed)" % config)
             NO_INTERNALS.add(config)
-            _built.add(key)
-            return binp
-    if p.returncode != 0:
-        raise Machinery("build of configuration %s failed:\n%s" % (config, p.stdout[-4000:]))
-    log("[build] %s (%s) %.1fs" % (config, package, time.time() - t0))
+            ok, binp = True, binp2
+        elif not HOOKS_OFF:
+            HOOKS_OFF = True
+            for internals in (True, False):
+                ok3, binp3, _ = _cargo_build(config, package, internals)
+                if ok3:
+                    log("[build] %s builds only WITHOUT the verification hooks (the guarded hook code no longer compiles): H1/H2 unavailable" % config)
+                    if not internals:
+                        NO_INTERNALS.add(config)
+                    ok, binp = True, binp3
+                    break
+            if not ok:
+                HOOKS_OFF = False
+    if not ok:
+        raise Machinery("build of configuration %s failed:\n%s" % (config, out[-4000:]))
+    log("[build] %s (%s) %.1fs%s" % (config, package, time.time() - t0, " [hooks off]" if HOOKS_OFF else ""))
     _built.add(key)
+    _binpath[key] = binp
     return binp
 
 
@@ -298,7 +322,7 @@ BACKEND_NAMES = ["cpuid", "sse2", "ssse3", "sse41", "avx", "avx2"]
 
 def build_probe(name, features, rustflags, tdir=None):
     """returns (binary path or None, error text)"""
-    tdir = tdir or os.path.join(BUILD, name)
+    tdir = (tdir or os.path.join(BUILD, name)) + ("-nohooks" if HOOKS_OFF else "")
     cmd = ["cargo", "build", "--offline", "-q", "--release", "-p", "vprobe", "--target-dir", tdir]
     if features:
         cmd += ["--features", ",".join(features)]
@@ -337,7 +361,7 @@ def probe_violations(prefix, point, r, ref_fp, viol):
 def plan_c03(tier):
     from concurrent.futures import ThreadPoolExecutor
     t0 = time.time()
-    selftest()
+    selftest()  # builds `rel` first: decides whether the hooks still compile
     names = list(PROBE_CONFIGS)
     with ThreadPoolExecutor(max_workers=4) as ex:
         built = list(ex.map(lambda n: build_probe(n, PROBE_CONFIGS[n][0], PROBE_CONFIGS[n][1]), names))
@@ -349,6 +373,9 @@ def plan_c03(tier):
             points.append(dict(point=n, built=False))
             continue
         for f in PROBE_CONFIGS[n][2]:
+            if f and HOOKS_OFF:
+                points.append(dict(point="%s/forced-%s" % (n, BACKEND_NAMES[f]), skipped="hook H1 not available in this tree"))
+                continue
             point = n if len(PROBE_CONFIGS[n][2]) == 1 else "%s/forced-%s" % (n, BACKEND_NAMES[f])
             r = run_probe(binp, f, long=(tier == "thorough"))
             fp = probe_violations("c03", point, r, ref_fp, viol)
